@@ -461,6 +461,20 @@ def generate(repo, exclude=None):
                 HELPERS[u.name] = [n for n in done if f"{u.name}.{n}" not in {t[0] for t in ths}]
         except Exception as e:
             report[crate + (":Hc128Core" if crate == "rand_hc" and "Hc128Fns" in report else "")] = dict(error=repr(e))
+    # rand_core 0.9.5 (registry source) and the wrapper types built on it
+    try:
+        import rs2lean_rc
+        for u, order in rs2lean_rc.build_units(report):
+            text, done, skipped = emit_unit(u, order, dict(exclude.get(u.name, {})))
+            parts.append(text)
+            report[u.name] = dict(file=u.file, translated=done, skipped=skipped, shape=u.shape, seed_len=u.seed_len)
+            if ASSERTS.get(u.name):
+                report[u.name]["ignored_asserts"] = ASSERTS[u.name]
+            ths, proofs = rs2lean_rc.theorems(u, done)
+            theorems += ths
+            CUSTOM_PROOFS.update(proofs)
+    except Exception as e:
+        report["rand_core"] = dict(report.get("rand_core") or {}, error=repr(e))
     digest = hashlib.sha256("\n".join(parts).encode()).hexdigest()[:16]
     out = [HEADER.format(digest=digest)] + parts + ["\nnamespace ExtTie"]
     for name, stmt, props, fn in theorems:
